@@ -1,1 +1,2 @@
 import Model.Browser
+import Model.Diag
